@@ -101,7 +101,16 @@ pub enum Case {
     Socket { domain: u8, ty: u8, direct: bool },
     /// recv_n / recv_n_vectored with MSG_PEEK whose first receive is short.
     RecvN { family: AddrFamily, c1: u16, vectored: bool },
-    Splice { to_pipe: bool, off: Option<u32>, len: u16, file_len: u16, more: bool },
+    Splice {
+        to_pipe: bool,
+        off: Option<u32>,
+        len: u16,
+        file_len: u16,
+        more: bool,
+        /// The file is opened as a direct descriptor.
+        #[serde(default)]
+        direct: bool,
+    },
     Convert { payload: u16, clone_first: bool },
     Madvise { pages: u8, off: u8, len: u8, advice: u8 },
     Wait { code: u8 },
@@ -119,6 +128,9 @@ pub enum Case {
     },
     /// Operations on buffers from a ReadBufPool.
     PoolIo { dgram: bool, peek: bool, len: u16, pool_log2: u8, file_off: Option<u16> },
+    /// The request handed to the (simulated) kernel, audited against the
+    /// documented encoding (props/c13b.rs).
+    Audit(super::c13b::Audit),
 }
 
 struct Real {
@@ -273,13 +285,14 @@ impl Property for C13 {
             2 => (any::<bool>(), 1u16..3000, any::<bool>()).prop_map(|(direct_flag, payload, kind_direct)| Case::Pipe { direct_flag, payload, kind_direct }),
             2 => (0u8..3, 0u8..3, any::<bool>()).prop_map(|(domain, ty, direct)| Case::Socket { domain, ty, direct }),
             2 => (family(), 1u16..3000, any::<bool>()).prop_map(|(family, c1, vectored)| Case::RecvN { family, c1, vectored }),
-            3 => (any::<bool>(), proptest::option::weighted(0.6, 0u32..20_000), 1u16..9000, 0u16..20_000, any::<bool>()).prop_map(|(to_pipe, off, len, file_len, more)| Case::Splice { to_pipe, off, len, file_len, more }),
+            3 => (any::<bool>(), proptest::option::weighted(0.6, 0u32..20_000), 1u16..9000, 0u16..20_000, any::<bool>(), any::<bool>()).prop_map(|(to_pipe, off, len, file_len, more, direct)| Case::Splice { to_pipe, off, len, file_len, more, direct }),
             2 => (1u16..5000, any::<bool>()).prop_map(|(payload, clone_first)| Case::Convert { payload, clone_first }),
             2 => (1u8..6, 0u8..6, 0u8..7, 0u8..5).prop_map(|(pages, off, len, advice)| Case::Madvise { pages, off, len, advice }),
             1 => any::<u8>().prop_map(|code| Case::Wait { code }),
             1 => (any::<u8>(), any::<bool>()).prop_map(|(group, stream_type)| Case::ScopedV6 { group, stream_type }),
             2 => (0u8..5, 0u16..0o1000, 0u16..9000, proptest::option::weighted(0.6, (file_secs(), 0u32..1_000_000_000, file_secs(), prop_oneof![Just(0u32), Just(999_999_999u32), 0u32..1_000_000_000]))).prop_map(|(target, mode, size, times)| Case::Meta { target, mode, size, times }),
             3 => (any::<bool>(), any::<bool>(), 1u16..4000, 0u8..3, proptest::option::weighted(0.5, 0u16..6000)).prop_map(|(dgram, peek, len, pool_log2, file_off)| Case::PoolIo { dgram, peek, len, pool_log2, file_off }),
+            16 => super::c13b::strategy().prop_map(Case::Audit),
         ]
         .boxed()
     }
@@ -289,6 +302,28 @@ impl Property for C13 {
     }
 
     fn run(case: &Case, ctx: &mut Ctx) {
+        if let Case::Audit(audit) = case {
+            let mut classes: Vec<&'static str> = Vec::new();
+            if let Err(e) = super::c13b::run(audit, &mut classes, ctx) {
+                if let Some(msg) = e.strip_prefix("infra:") {
+                    ctx.infra(msg.to_string());
+                } else {
+                    let (kind, msg) = e.split_once(": ").unwrap_or((&e, ""));
+                    ctx.violation(&format!("C13:{kind}"), msg.to_string());
+                }
+            }
+            ctx.class("audit");
+            let name = format!("{:?}", audit.op);
+            ctx.class(&format!("audit:{}", name.split([' ', '{']).next().unwrap_or("op")));
+            classes.sort();
+            classes.dedup();
+            for c in &classes {
+                ctx.class(c);
+            }
+            ctx.nontrivial = !classes.is_empty();
+            ctx.fingerprint = format!("audit|{}|{:x}", classes.join("|"), crate::common::fnv(&format!("{case:?}")) & 0xfffff);
+            return;
+        }
         let mut real = match Real::new() {
             Ok(r) => r,
             Err(e) => {
@@ -307,13 +342,14 @@ impl Property for C13 {
             Case::Pipe { direct_flag, payload, kind_direct } => run_pipe(&mut real, *direct_flag, *payload, *kind_direct, &mut classes),
             Case::Socket { domain, ty, direct } => run_socket(&mut real, *domain, *ty, *direct, &mut classes),
             Case::RecvN { family, c1, vectored } => run_recv_n(&mut real, *family, *c1, *vectored, &mut classes),
-            Case::Splice { to_pipe, off, len, file_len, more } => run_splice(&mut real, *to_pipe, *off, *len, *file_len, *more, &mut classes),
+            Case::Splice { to_pipe, off, len, file_len, more, direct } => run_splice(&mut real, *to_pipe, *off, *len, *file_len, *more, *direct, &mut classes),
             Case::Convert { payload, clone_first } => run_convert(&mut real, *payload, *clone_first, &mut classes),
             Case::Madvise { pages, off, len, advice } => run_madvise(&mut real, *pages, *off, *len, *advice, &mut classes),
             Case::Wait { code } => run_wait(&mut real, *code, &mut classes),
             Case::ScopedV6 { group, stream_type } => run_scoped_v6(&mut real, *group, *stream_type, &mut classes),
             Case::Meta { target, mode, size, times } => run_meta(&mut real, *target, *mode, *size, *times, &mut classes),
             Case::PoolIo { dgram, peek, len, pool_log2, file_off } => run_pool_io(&mut real, *dgram, *peek, *len, *pool_log2, *file_off, &mut classes),
+            Case::Audit(_) => unreachable!(),
         };
         for (sig, msg) in std::mem::take(&mut real.soft) {
             ctx.violation(&format!("C13:{sig}"), msg);
@@ -353,6 +389,7 @@ impl Property for C13 {
             Case::ScopedV6 { .. } => "scoped-v6",
             Case::Meta { .. } => "metadata",
             Case::PoolIo { .. } => "pool-io",
+            Case::Audit(_) => "audit",
         };
         ctx.class(fam);
         classes.sort();
@@ -365,11 +402,11 @@ impl Property for C13 {
     }
 
     fn rule() -> &'static str {
-        "proptest argument tuples per operation family, each executed through a10 on the real io_uring (twin A) and through the corresponding libc call (twin B) and compared: file I/O (read/write/readv/writev at current position and at generated offsets, append mode, lengths incl. 0, 1..8 vectors, truncate, fallocate with/without KEEP_SIZE, fadvise, fsync/fdatasync, statx) comparing returned counts, bytes, file contents, size, blocks and file position; directory trees (mkdir/rename/unlink/rmdir) comparing outcome and listing; open with every OpenOptions combination on existing/missing/directory paths comparing outcome, F_GETFL, mode and truncation; stream sockets over IPv4/IPv6/Unix path/Unix abstract (bind/listen/connect/accept/local_addr/peer_addr compared with getsockname/getpeername through the other API, send flags, recv PEEK/WAITALL, vectored send/recv, shutdown); datagram sockets (send_to/recv_from(+vectored), source addresses); socket options (set through a10, read through libc and vice versa); pipes (O_DIRECT, descriptor flags); socket creation (SO_DOMAIN/SO_TYPE/SO_PROTOCOL, FD_CLOEXEC); regular and direct descriptors. errno is compared only inside an allow-list where io_uring and the system call are documented to agree. Non-trivial = a tuple unlike those in tests/: offset other than 0/-1, length 0, >= 3 vectors, direct descriptor, Unix address, >= 2 flags. Distinct = (family, classes, 20-bit case hash)."
+        "proptest argument tuples per operation family, each executed through a10 on the real io_uring (twin A) and through the corresponding libc call (twin B) and compared: file I/O (read/write/readv/writev at current position and at generated offsets, append mode, lengths incl. 0, 1..8 vectors, truncate, fallocate with/without KEEP_SIZE, fadvise, fsync/fdatasync, statx) comparing returned counts, bytes, file contents, size, blocks and file position; directory trees (mkdir/rename/unlink/rmdir) comparing outcome and listing; open with every OpenOptions combination on existing/missing/directory paths comparing outcome, F_GETFL, mode and truncation; stream sockets over IPv4/IPv6/Unix path/Unix abstract (bind/listen/connect/accept/local_addr/peer_addr compared with getsockname/getpeername through the other API, send flags, recv PEEK/WAITALL, vectored send/recv, shutdown); datagram sockets (send_to/recv_from(+vectored), source addresses); socket options (set through a10, read through libc and vice versa); pipes (O_DIRECT, descriptor flags); socket creation (SO_DOMAIN/SO_TYPE/SO_PROTOCOL, FD_CLOEXEC); regular and direct descriptors. errno is compared only inside an allow-list where io_uring and the system call are documented to agree. About 22 % of the cases are encoding audits (props/c13b.rs) against the simulated kernel: one of 28 operations (read/write (+vectored) with from/at, recv/recv_vectored/recv_from/recv_from_vectored and send/send_to/send_vectored/send_to_vectored with every subset of their flag constants and zc(), multishot recv/accept, accept per address family, splice in both directions with from/at/flags, fallocate modes, fadvise advice, ftruncate, fsync/fdatasync, statx interest, socket domain/type/protocol/kind, pipe flags/kind, shutdown, listen, connect/bind with IPv4/IPv6/Unix path/abstract/unnamed addresses, waitid targets and options), on a regular or a direct descriptor, is built with generated arguments and builder calls and polled; the consumed SQE (all 64 bytes but user_data and the IOSQE_ASYNC hint), the iovecs, the msghdr and the socket address bytes it points at are compared with a table written from io_uring_enter(2) and liburing's io_uring_prep_* helpers, the request is failed with EIO and the future must resolve to exactly that error after exactly one request. Non-trivial = a tuple unlike those in tests/: offset other than 0/-1, length 0, >= 3 vectors, direct descriptor, Unix address, >= 2 flags. Distinct = (family, classes, 20-bit case hash)."
     }
 
     fn assumptions() -> Vec<&'static str> {
-        vec!["runs against the real kernel of the sandbox (no simulator); twin fixtures are built identically with std; signal delivery and waitid are excluded (process-wide side effects)", "timing-dependent behaviour (short reads on sockets) is avoided by transferring less than the socket buffers hold and waiting for data with WAITALL/poll where needed"]
+        vec!["the differential families run against the real kernel of the sandbox (no simulator), the encoding audits against the simulated kernel (which only records the request and fails it); twin fixtures are built identically with std; signal delivery and waitid are excluded (process-wide side effects)", "timing-dependent behaviour (short reads on sockets) is avoided by transferring less than the socket buffers hold and waiting for data with WAITALL/poll where needed"]
     }
 }
 
@@ -1806,14 +1843,19 @@ fn run_recv_n(real: &mut Real, family: AddrFamily, c1: u16, vectored: bool, clas
     Ok(())
 }
 
-fn run_splice(real: &mut Real, to_pipe: bool, off: Option<u32>, len: u16, file_len: u16, more: bool, classes: &mut Vec<&'static str>) -> Result<(), String> {
+fn run_splice(real: &mut Real, to_pipe: bool, off: Option<u32>, len: u16, file_len: u16, more: bool, direct: bool, classes: &mut Vec<&'static str>) -> Result<(), String> {
     use std::os::fd::AsFd;
     let scratch = Scratch::new("splice");
     let (pa, pb) = (scratch.dir.join("a"), scratch.dir.join("b"));
     let init = pattern(19, file_len as usize);
     std::fs::write(&pa, &init).map_err(|e| format!("infra:{e}"))?;
     std::fs::write(&pb, &init).map_err(|e| format!("infra:{e}"))?;
-    let fa = real.block_on(OpenOptions::new().read().write().open(real.sq.clone(), pa.clone()))?.map_err(|e| format!("infra:open: {e}"))?;
+    let mut oo = OpenOptions::new().read().write();
+    if direct {
+        oo = oo.kind(Kind::Direct);
+        classes.push("direct-descriptor");
+    }
+    let fa = real.block_on(oo.open(real.sq.clone(), pa.clone()))?.map_err(|e| format!("infra:open: {e}"))?;
     let fb = unsafe { libc::open(cstr(&pb).as_ptr(), libc::O_RDWR | libc::O_CLOEXEC) };
     if fb < 0 {
         return Err("infra:open".into());
